@@ -16,12 +16,14 @@ LEVEL_TEXT = ("Coq theorems in the abstract ordered *-field (every length, order
               "(linear in rho).  arma.ma, arma.arma_estimate and the parma / pma objects (the model of C15): same AR / MA coefficients, |c|^2 rho, "
               "same exception, stored PSD times |c|^2, for any covariance-method oracles that agree on the two systems they are handed (proved for "
               "the executable solver of Model/Ls.v; for C15's elimination oracle when no pivot vanishes); guard: residual not identically zero.  "
+              "DaniellPeriodogram (new model Model/Daniell.v: bin-count parity decides the layout, bin 0 is never averaged in) is linear in the "
+              "periodogram bins, hence homogeneous for ANY c.  "
               "Models are tied to the code by exact in-Coq correspondence at scaled inputs (here: CORRELATION, LEVINSON, arburg, "
-              "aryule, arcovar, modcovar, speriodogram, arma_estimate; the other models by the correspondence runs of C01 C14 C15 C16 C17 C19); every estimator "
+              "aryule, arcovar, modcovar, speriodogram, arma_estimate, DaniellPeriodogram (also at binary64); the other models by the correspondence runs of C01 C14 C15 C16 C17 C19); every estimator "
               "(function and class form) is also covered by a property-directed search comparing estimate(c*x) with |c|^p * estimate(x).")
 TRUSTED = ["Coq 8.16.1 kernel + vm_compute",
-           "hand-written models coq/Model/{Corr,Levinson,Burg,Periodogram,Yule,Ls,Minvar,Mtm,Eigen,Arma2psd,ArmaEst,ArmaCall}.v (tie = correspondence runs, here at "
-           "scaled inputs for Corr/Levinson/Burg/Yule/Ls/Periodogram/ArmaEst, in C15 for ArmaEst and its class pipeline, in C16/C17/C19 for Minvar/Eigen/Mtm)",
+           "hand-written models coq/Model/{Corr,Levinson,Burg,Periodogram,Yule,Ls,Minvar,Mtm,Eigen,Arma2psd,ArmaEst,ArmaCall,Daniell}.v (tie = correspondence runs, here at "
+           "scaled inputs for Corr/Levinson/Burg/Yule/Ls/Periodogram/ArmaEst/Daniell, in C15 for ArmaEst and its class pipeline, in C16/C17/C19 for Minvar/Eigen/Mtm)",
            "arcovar_marple / scipy lstsq inside arma_estimate are oracles of the model: the arma_estimate / parma theorems assume they return the same "
            "coefficients for a system and its |c|^2 multiple (true of any solver of the normal equations of a full-rank system)",
            "fail-closed AST translator tools/props/_pipelines.py and the interpreter coq/Model/PipelineLib.v (validated against real objects by C08)",
@@ -30,7 +32,7 @@ TRUSTED = ["Coq 8.16.1 kernel + vm_compute",
            "log_criteria_homogeneous is stated over the standard-library reals (axioms: sig_forall_dec, sig_not_dec, "
            "functional_extensionality_dep, classic); all other theorems are axiom-free",
            "Python harness"]
-UNPROVED = ["DaniellPeriodogram, arcovar_marple / modcovar_marple as stand-alone recursions: search only (inside arma_estimate arcovar_marple is the oracle lsm)",
+UNPROVED = ["arcovar_marple / modcovar_marple as stand-alone recursions: search only (inside arma_estimate arcovar_marple is the oracle lsm)",
             "invariance of the argmin of aic_eigen / mdl_eigen (logarithms; an oracle argument of the Eigen model): search only",
             "that numpy's svd / lstsq return related factorisations for x and c*x (theorems are over their specifications); binary64 rounding"]
 ASSUMPTIONS = ["exact arithmetic in the theorems",
@@ -69,6 +71,23 @@ Definition covar_scaled tol (s : Qc) (modified : bool) (c : QcC) (x : list QcC) 
 (* speriodogram on the exact 4-point grid, scale_by_freq off (2*pi is then not read) *)
 Definition per_scaled tol (c : QcC) (x w : list QcC) (isreal : bool) (dt : pyval) (ipsd : list QcC) :=
   qcc_close_rel tol (dy 1 0) (@speriodogram _ qcc_ops tw4 (cz (0,0) (0,0)) (@vscale _ qcc_ops c x) w (Some 4%nat) isreal dt PyFalse (cz (1,0) (0,0))) ipsd.
+"""
+
+PRE_DANIELL = """Require Import Spectrum.Theory.Ops Spectrum.Theory.Vec Spectrum.Theory.Dft Spectrum.Model.Periodogram Spectrum.Model.Daniell
+               Spectrum.Instances.QcC Spectrum.Instances.QcCTw.
+From Coq Require Import QArith Qcanon.
+Local Open Scope Z_scope.
+Definition dan_smooth_case tol (psd : list QcC) (P : nat) (inew : list QcC) : bool :=
+  qcc_close_rel tol (dy 1 0) (@daniell_smooth _ qcc_ops psd P) inew.
+Definition dan_full_case tol (c : QcC) (x w : list QcC) (P : nat) (isreal : bool) (dt : pyval) (inew : list QcC) : bool :=
+  qcc_close_rel tol (dy 1 0)
+    (@daniell _ qcc_ops tw4 (cz (0,0) (0,0)) (@vscale _ qcc_ops c x) w P (Some 4%nat) isreal dt PyFalse (cz (1,0) (0,0))) inew.
+"""
+PRE_DANIELL_F = """From Coq Require Import PrimFloat.
+Require Import Spectrum.Theory.Ops Spectrum.Theory.Vec Spectrum.Model.Daniell Spectrum.Instances.FloatC Spectrum.Instances.QcC.
+Definition dan_smooth_float (tol : float) (psd : list float) (P : nat) (inew : list float) : bool :=
+  f_close_rel tol 0x1p-1000%float (@daniell_smooth _ f_ops psd P) inew.
+Local Open Scope float_scope.
 """
 
 
@@ -540,3 +559,54 @@ def run(ctx):
     for i in ctx.coq_cases('c03_arma_scaled', AC.pre(), cases, shard=4,
                            descr='arma_estimate at c*x (every outcome code, AR / MA / rho, oracle residual exactly zero) vs Model.ArmaEst.arma_estimate at QcC'):
         ctx.corr_disagreement('arma_estimate', i, meta[i])
+
+    # ---------------- DaniellPeriodogram against Model/Daniell.v: (a) the smoother on the implementation's own speriodogram output,
+    # binary64 bins read exactly (dyadic rationals, exact sums at QcC) and the same term run at binary64; (b) the whole function at
+    # scaled low-bit inputs on the exact 4-point grid
+    from spectrum import DaniellPeriodogram
+    import warnings
+    cases_q = []; cases_f = []; cases_g = []; meta_q = []; meta_g = []
+    guard = 0
+    while len(cases_q) < ctx.q(40, 300) and guard < 5000:
+        guard += 1
+        cplx = bool(rng.integers(0, 2)); N = int(rng.integers(6, 49)); P = int(rng.integers(1, 7))
+        NFFT = [None, N, N + 3, 2 * N, 32, 33, 64][int(rng.integers(0, 7))]
+        if NFFT is not None and NFFT < N:
+            NFFT = N
+        x, kind = gen(rng, N, cplx)
+        sbf = bool(rng.integers(0, 2)); fs = float(rng.choice([1.0, 7.5, 1024.0])); dt = [None, 'mean', True][int(rng.integers(0, 3))]
+        wname = str(rng.choice(['hamming', 'hann', 'rectangular']))
+        with warnings.catch_warnings():
+            warnings.simplefilter('ignore')
+            psd = speriodogram(x, NFFT=NFFT, detrend=dt, sampling=fs, scale_by_freq=sbf, window=wname)
+            new, _freq = DaniellPeriodogram(x, P, NFFT=NFFT, detrend=dt, sampling=fs, scale_by_freq=sbf, window=wname)
+        psd = np.asarray(psd, dtype=float); new = np.asarray(new, dtype=float)
+        if not (np.all(np.isfinite(psd)) and np.all(np.isfinite(new))):
+            ctx.count('regenerated_degenerate'); continue
+        cases_q.append('dan_smooth_case %s %s %d%%nat %s' % (tolq(1e-12), czl(psd), P, czl(new)))
+        cases_f.append('dan_smooth_float 0x1p-40 %s %d%%nat %s' % (vlib.fll(psd), P, vlib.fll(new)))
+        meta_q.append({'function': 'DaniellPeriodogram (smoother)', 'x': vlib.hexv(np.asarray(x, dtype=complex)), 'P': P, 'NFFT': NFFT, 'bins': int(len(psd))})
+        ctx.count('corr/daniell/%s/%s' % ('odd-bins' if len(psd) % 2 else 'even-bins', 'complex' if cplx else 'real'))
+        ctx.case(('daniell', x.tobytes(), P, NFFT, sbf, fs, str(dt), wname), nontrivial=(len(new) >= 2),
+                 sample={'function': 'DaniellPeriodogram smoother vs Model.Daniell', 'N': N, 'P': P, 'NFFT': NFFT, 'bins': int(len(psd)), 'out': int(len(new))})
+    for _ in range(ctx.q(12, 100)):
+        cplx = bool(rng.integers(0, 2)); N = int(rng.integers(2, 5)); P = int(rng.integers(1, 3)); x = lowbit(rng, N, cplx)
+        c = (complex(rng.integers(-6, 7), rng.integers(-6, 7)) / 4.0) if cplx else float(rng.integers(-12, 13)) / 4.0
+        if c == 0:
+            c = -2.5
+        wname = str(rng.choice(['hamming', 'hann', 'rectangular'])) if N > 2 else 'rectangular'
+        dt = str(rng.choice(['none', 'true', 'mean']))
+        with warnings.catch_warnings():
+            warnings.simplefilter('ignore')
+            new, _freq = DaniellPeriodogram(c * x, P, NFFT=4, detrend={'none': None, 'true': True, 'mean': 'mean'}[dt], scale_by_freq=False, window=wname)
+        w = np.asarray(Window(N, wname).data, dtype=float)
+        cases_g.append('dan_full_case %s %s %s %s %d%%nat %s %s %s' % (tolq(1e-10), cz(c), czl(x), czl(w), P, 'false' if cplx else 'true',
+                       {'none': 'PyNone', 'true': 'PyTrue', 'mean': 'PyStr'}[dt], czl(np.asarray(new, dtype=float))))
+        meta_g.append({'function': 'DaniellPeriodogram at c*x (4-point grid)', 'x': vlib.hexv(np.asarray(x, dtype=complex)), 'c': str(c), 'P': P})
+        ctx.count('corr/daniell_grid/%s' % ('complex' if cplx else 'real'))
+        ctx.case(('daniell4', x.tobytes(), str(c), P, wname, dt), nontrivial=True, sample={'function': 'DaniellPeriodogram at c*x, NFFT=4', 'c': str(c), 'P': P})
+    for i in ctx.coq_cases('c03_daniell', PRE_DANIELL, cases_q + cases_g, shard=60,
+                           descr='DaniellPeriodogram: smoother on the implementation\'s bins (exact sums at QcC) and the whole function at scaled inputs on the 4-point grid vs Model/Daniell.v'):
+        ctx.corr_disagreement('DaniellPeriodogram', i, (meta_q + meta_g)[i])
+    for i in ctx.coq_cases('c03_daniell_float', PRE_DANIELL_F, cases_f, shard=100, descr='the smoother of Model/Daniell.v run at binary64 vs DaniellPeriodogram'):
+        ctx.corr_disagreement('DaniellPeriodogram', i, meta_q[i])
